@@ -749,6 +749,9 @@ class C12:
         cfg = swarm_config(rc, ctx.tier, weights_over=wo)
         cfg["g_restricted"] = rc.random() < 0.85
         cfg["nplit"] = rc.random() < 0.2
+        cfg["npkeys"] = rc.random() < 0.4      # numpy integer / numpy string / bool item keys
+        if cfg["npkeys"]:
+            cfg["weights"]["load"] = 0
         spec = gen_spec(rng_for(ctx.seed, "C12", run, "spec"), cfg)
         hg = HistoryGen(rng_for(ctx.seed, "C12", run, "ops"), cfg, spec)
         ops = hg.history()
